@@ -9,7 +9,7 @@ From Orca Require Import Util Flat Lowering Locals Types Reindex CheckReidx Buil
 Local Open Scope N_scope.
 
 Record bcase := mkBC {
-  bb_types : list (list N * list N);      (* the function types of the base module (pairwise distinct) *)
+  bb_types : list (list N * list N);      (* the function types of the base module (a type may occur twice) *)
   bb_imports : list (N * N);              (* (kind, fp); function imports have type 0 *)
   bb_funcs : list fobs;                   (* local functions of the base module as a decoder sees them (type 0) *)
   bh_ops : list bop;
